@@ -341,8 +341,19 @@ def keyInt {α} (a : DimArray α) (k : DimKey) : Int :=
   | .name s => (a.dims.idxOf s : Nat)
   | .pos i => i
 
+/-- an integer key is a position `self.axes[idx]` accepts -/
+def PosInRange {α} (a : DimArray α) (ks : List DimKey) : Prop :=
+  ∀ i, DimKey.pos i ∈ ks → -(a.ndim : Int) ≤ i ∧ i < (a.ndim : Int)
+
+theorem posInRange_if {n : Nat} {i : Int} {β : Type} (x y : β) (h : -(n : Int) ≤ i ∧ i < (n : Int)) :
+    (if (i < -(n : Int) || i ≥ (n : Int)) = true then x else y) = y := by
+  have h1 : ¬ (i < -(n : Int)) := by omega
+  have h2 : ¬ (i ≥ (n : Int)) := by omega
+  simp only [h1, h2, decide_false, Bool.or_self, Bool.false_eq_true, if_false]
+
 theorem axesPositions_ok {α} (a : DimArray α) (ks : List DimKey)
-    (h : ∀ s, DimKey.name s ∈ ks → s ∈ a.dims) : axesPositions a ks = .ok (ks.map (keyInt a)) := by
+    (h : ∀ s, DimKey.name s ∈ ks → s ∈ a.dims) (hp : PosInRange a ks) :
+    axesPositions a ks = .ok (ks.map (keyInt a)) := by
   unfold axesPositions
   apply exMapM_ok_of_forall
   intro k hk
@@ -350,25 +361,38 @@ theorem axesPositions_ok {α} (a : DimArray α) (ks : List DimKey)
   | name s =>
     have := List.idxOf_lt_length_of_mem (h s hk)
     simp only [keyInt, this, if_true]
-  | pos i => rfl
+  | pos i => exact posInRange_if _ _ (hp i hk)
 
 theorem axesPositions_error {α} (a : DimArray α) (ks : List DimKey)
-    (h : ∃ s, DimKey.name s ∈ ks ∧ s ∉ a.dims) : axesPositions a ks = .error .value := by
+    (h : ∃ s, DimKey.name s ∈ ks ∧ s ∉ a.dims) (hp : PosInRange a ks) : axesPositions a ks = .error .value := by
   unfold axesPositions
   apply exMapM_error_of_mem
-  · intro k _
+  · intro k hk
     cases k with
     | name s =>
       by_cases hs : a.dims.idxOf s < a.dims.length
       · right; exact ⟨(a.dims.idxOf s : Nat), by simp only [hs, if_true]⟩
       · left; simp only [hs, if_false]
-    | pos i => right; exact ⟨i, rfl⟩
+    | pos i => right; exact ⟨i, posInRange_if _ _ (hp i hk)⟩
   · obtain ⟨s, hs, hns⟩ := h
     refine ⟨_, hs, ?_⟩
     have : ¬ a.dims.idxOf s < a.dims.length := by
       intro hlt
       exact hns (List.idxOf_lt_length_iff.mp hlt)
     simp only [this, if_false]
+
+theorem posInRange_names {α} (a : DimArray α) (names : List String) : PosInRange a (names.map DimKey.name) := by
+  intro i hi
+  obtain ⟨s, _, hs⟩ := List.mem_map.mp hi
+  cases hs
+
+theorem resolves_posInRange {α} (a : DimArray α) (k : DimKey) (d : Nat) (h : Resolves a k d) :
+    ∀ i, k = .pos i → -(a.ndim : Int) ≤ i ∧ i < (a.ndim : Int) := by
+  intro i hi
+  subst hi
+  obtain ⟨hd, hk⟩ := h
+  have hk' : i = (d : Int) ∨ i = (d : Int) - (a.ndim : Int) := hk
+  omega
 
 theorem resolves_keyInt {α} (a : DimArray α) (hn : a.dims.Nodup) (k : DimKey) (d : Nat) (h : Resolves a k d) :
     (keyInt a k = (d : Int) ∨ keyInt a k = (d : Int) - (a.ndim : Int)) ∧
@@ -450,9 +474,12 @@ theorem transpose_keys_ok {α} (a : DimArray α) (hn : a.dims.Nodup) (ks : List 
   rw [transpose_some_nonempty a ks hne]
   have h1 : axesPositions a ks = .ok (ks.map (keyInt a)) := by
     apply axesPositions_ok
-    intro s hs
-    obtain ⟨k, hk, hke⟩ := List.getElem_of_mem hs
-    exact (resolves_keyInt a hn _ _ (h k hk (hl ▸ hk))).2 s hke
+    · intro s hs
+      obtain ⟨k, hk, hke⟩ := List.getElem_of_mem hs
+      exact (resolves_keyInt a hn _ _ (h k hk (hl ▸ hk))).2 s hke
+    · intro i hi
+      obtain ⟨k, hk, hke⟩ := List.getElem_of_mem hi
+      exact resolves_posInRange a _ _ (h k hk (hl ▸ hk)) i hke
   have h2 : normPerm a.ndim (ks.map (keyInt a)) = .ok q := by
     apply normPerm_ok _ _ _ hq (by simpa using hl)
     intro k hk1 hk2
@@ -544,7 +571,7 @@ theorem transpose_names_error {α} (a : DimArray α) (hn : a.dims.Nodup) (names 
   rw [transpose_some_nonempty a _ (by simpa using hne)]
   by_cases hsub : ∀ s ∈ names, s ∈ a.dims
   · have h1 : axesPositions a (names.map DimKey.name) = .ok ((names.map DimKey.name).map (keyInt a)) := by
-      apply axesPositions_ok
+      apply axesPositions_ok _ _ _ (posInRange_names a names)
       intro s hs
       obtain ⟨t, ht, hte⟩ := List.mem_map.mp hs
       cases hte; exact hsub s ht
@@ -564,7 +591,7 @@ theorem transpose_names_error {α} (a : DimArray α) (hn : a.dims.Nodup) (names 
         simpa [DimArray.ndim, DimArray.dims] using hlen
     simp only [h1, h2, h3, bind, Except.bind]
   · have h1 : axesPositions a (names.map DimKey.name) = .error .value := by
-      apply axesPositions_error
+      apply axesPositions_error _ _ _ (posInRange_names a names)
       simp only [Classical.not_forall] at hsub
       obtain ⟨s, hs, hns⟩ := hsub
       exact ⟨s, List.mem_map.mpr ⟨s, hs, rfl⟩, hns⟩
@@ -662,11 +689,16 @@ theorem swapaxes_ok {α} (a : DimArray α) (hn : a.dims.Nodup) (k1 k2 : DimKey) 
   obtain ⟨r2, m2⟩ := resolves_keyInt a hn k2 d2 h2
   have hap : axesPositions a [k1, k2] = .ok ([k1, k2].map (keyInt a)) := by
     apply axesPositions_ok
-    intro s hs
-    simp only [List.mem_cons, List.not_mem_nil, or_false] at hs
-    rcases hs with hs | hs
-    · exact m1 s hs.symm
-    · exact m2 s hs.symm
+    · intro s hs
+      simp only [List.mem_cons, List.not_mem_nil, or_false] at hs
+      rcases hs with hs | hs
+      · exact m1 s hs.symm
+      · exact m2 s hs.symm
+    · intro i hi
+      simp only [List.mem_cons, List.not_mem_nil, or_false] at hi
+      rcases hi with hi | hi
+      · exact resolves_posInRange a _ _ h1 i hi.symm
+      · exact resolves_posInRange a _ _ h2 i hi.symm
   rw [hap]
   simp only [Except.bind, List.map_cons, List.map_nil, List.getD_cons_zero, List.getD_cons_succ]
   rw [normI_of h1.1 r1, normI_of h2.1 r2]
@@ -737,9 +769,12 @@ theorem rollaxis_ok {α} (a : DimArray α) (hn : a.dims.Nodup) (k : DimKey) (sta
   obtain ⟨r1, m1⟩ := resolves_keyInt a hn k d hk
   have hap : axesPositions a [k] = .ok ([k].map (keyInt a)) := by
     apply axesPositions_ok
-    intro s hs
-    simp only [List.mem_cons, List.not_mem_nil, or_false] at hs
-    exact m1 s hs.symm
+    · intro s hs
+      simp only [List.mem_cons, List.not_mem_nil, or_false] at hs
+      exact m1 s hs.symm
+    · intro i hi
+      simp only [List.mem_cons, List.not_mem_nil, or_false] at hi
+      exact resolves_posInRange a _ _ hk i hi.symm
   rw [hap]
   simp only [Except.bind, List.map_cons, List.map_nil, List.getD_cons_zero]
   rw [rollPerm_ok a.ndim _ start d s hk.1 r1 hst]
